@@ -1,20 +1,25 @@
 package main
 
 // coordsim: replays behaviours of spec/ZCoord.tla (TLC -simulate files; only the action
-// labels are parsed) on the REAL placement-driver coordinator:
-//   Migrate(src)        -> handleNamespaceMigrate
-//   PlanAdd(n,src)      -> IsAllISRFullReady + addNamespaceToNode      (as addNodeToNamespaceAndWaitReady does)
-//   PlanRemove(n,src)   -> IsAllISRFullReady + removeNamespaceFromNode (as its three callers do)
-//   Finish(src)         -> removeNamespaceFromRemovings
-//   CheckRound          -> doCheckNamespaces (twice: the first round only notes the partition)
-//   Snapshot            -> the coordinator re-reads its copy ("snap") of the record
-//   NodeDown/NodeUp/SyncLost/SyncBack/RaftJoin/RaftLeave -> the scripted environment
+// labels are parsed) on REAL placement-driver coordinators (one per writer w; two = a PD
+// leader fail-over in which the old leader keeps acting on its stale copies):
+//   Migrate(w,p,src)        -> handleNamespaceMigrate
+//   PlanAdd(w,p,n,src)      -> IsAllISRFullReady + addNamespaceToNode      (as addNodeToNamespaceAndWaitReady does)
+//   PlanRemove(w,p,n,src)   -> IsAllISRFullReady + removeNamespaceFromNode (as its three callers do)
+//   Finish(w,p,src)         -> removeNamespaceFromRemovings
+//   CheckRound(w)           -> doCheckNamespaces (twice: the first round only notes the partition)
+//   BalanceRound(w)         -> rebalanceNamespace (only with -balance: the real function sleeps 5 s
+//                              per move; the raft groups follow the metadata meanwhile)
+//   Snapshot(w,p)           -> coordinator w re-reads its copy ("snap") of partition p's record
+//   ChangeFactor(r)         -> ChangeNamespaceMetaParam (replication factor)
+//   NodeDown/NodeUp/SyncLost/SyncBack/RaftJoin(p,n)/RaftLeave(p,n) -> the scripted environment
 // over the in-memory register (cluster.VerifMemRegister, compare-and-swap on the epoch) and
 // loopback HTTP stubs that answer /cluster/israftsynced and /cluster/members as scripted.
 // src = "snap" hands the coordinator its earlier, possibly stale copy of the record.
 // The script only steers: when the real coordinator decided differently from the model the
 // remaining labels are still executed on whatever state the real system is in.  Every
-// UpdateNamespacePartReplicaInfo call is logged with the complete record; the driver never
+// UpdateNamespacePartReplicaInfo call is logged with the complete record, and the previous
+// layout handed to the placement function is logged before every round; the driver never
 // judges - spec/ZCoordTrace.tla decides.
 
 import (
@@ -48,7 +53,7 @@ type coStub struct {
 	mu       sync.Mutex
 	down     map[int]bool
 	unsynced map[int]bool
-	members  map[int]uint64 // node -> raft id, as every answering node reports it
+	members  map[int]map[int]uint64 // partition -> node -> raft id, as every answering node reports it
 	nreq     int
 }
 
@@ -62,15 +67,20 @@ type coDrv struct {
 	nodes  []coNode // index num-1
 	byID   map[string]int
 	tw     *trace.Writer
+	twmu   sync.Mutex
 	rng    *rand.Rand
 	R, N   int
 	K      int // replicas of the initial layout (<= R)
+	P, W   int // partitions of the namespace, coordinators
+	staleFactor bool // -stalefactor: coordinators keep copies read before a factor change (isolate stage)
+	realBalance bool
+	nbal   int
 	reg    *cluster.VerifMemRegister
-	pd     *pdnode_coord.PDCoordinator
+	pds    []*pdnode_coord.PDCoordinator // index w-1
 	alive  map[int]bool
-	epoch  int64
-	snap   *cluster.PartitionMetaInfo
-	wait   map[string]map[int]time.Time
+	epochs []int64
+	snaps  [][]*cluster.PartitionMetaInfo // [w-1][p]
+	waits  []map[string]map[int]time.Time
 	stats  map[string]int
 	sample []interface{}
 }
@@ -106,8 +116,12 @@ func (d *coDrv) startNode(num int) error {
 		st.mu.Lock()
 		st.nreq++
 		dn := st.down[num]
-		ms := make([]common.MemberInfo, 0, len(st.members))
-		for node, rid := range st.members {
+		pid := 0
+		if k := strings.LastIndex(r.URL.Path, "-"); k >= 0 {
+			pid, _ = strconv.Atoi(r.URL.Path[k+1:])
+		}
+		ms := make([]common.MemberInfo, 0, len(st.members[pid]))
+		for node, rid := range st.members[pid] {
 			ms = append(ms, common.MemberInfo{ID: rid, NodeID: uint64(node)})
 		}
 		st.mu.Unlock()
@@ -124,6 +138,12 @@ func (d *coDrv) startNode(num int) error {
 	d.nodes = append(d.nodes, coNode{num: num, info: n})
 	d.byID[n.ID] = num
 	return nil
+}
+
+func (d *coDrv) emit(v interface{}) {
+	d.twmu.Lock()
+	d.tw.Emit(v)
+	d.twmu.Unlock()
 }
 
 func (d *coDrv) num(id string) int { return d.byID[id] } // 0 = unknown node
@@ -162,23 +182,28 @@ func (d *coDrv) aliveMap() map[string]cluster.NodeInfo {
 	return m
 }
 
-func (d *coDrv) logMembers() {
+func (d *coDrv) logMembers(p int) {
 	d.st.mu.Lock()
-	ms := make([][2]uint64, 0, len(d.st.members))
-	for n, rid := range d.st.members {
+	ms := make([][2]uint64, 0, len(d.st.members[p]))
+	for n, rid := range d.st.members[p] {
 		ms = append(ms, [2]uint64{uint64(n), rid})
 	}
 	d.st.mu.Unlock()
 	sort.Slice(ms, func(a, b int) bool { return ms[a][0] < ms[b][0] })
-	d.tw.Emit(trace.M{"ev": "members", "m": ms})
+	d.emit(trace.M{"ev": "members", "p": p, "m": ms})
 }
 
-// begin starts a new scenario: fresh register, namespace with one partition on nodes 1..R.
+// begin starts a new scenario: fresh register, namespace with P partitions.  One partition:
+// nodes 1..K.  Several partitions: the real v2 placement over nodes 1..N-1 (node N is alive
+// but empty, as after joining - a balance round has something to move), cut to K replicas.
 func (d *coDrv) begin(info string) error {
 	d.st.mu.Lock()
 	d.st.down = map[int]bool{}
 	d.st.unsynced = map[int]bool{}
-	d.st.members = map[int]uint64{}
+	d.st.members = map[int]map[int]uint64{}
+	for p := 0; p < d.P; p++ {
+		d.st.members[p] = map[int]uint64{}
+	}
 	d.st.mu.Unlock()
 	d.alive = map[int]bool{}
 	al := []int{}
@@ -186,56 +211,142 @@ func (d *coDrv) begin(info string) error {
 		d.alive[i] = true
 		al = append(al, i)
 	}
-	d.tw.Emit(trace.M{"ev": "reset", "R": d.R, "N": d.N, "K": d.K, "alive": al, "info": info})
+	d.emit(trace.M{"ev": "reset", "R": d.R, "N": d.N, "K": d.K, "P": d.P, "W": d.W, "alive": al, "info": info})
 	d.reg = cluster.NewVerifMemRegister()
-	if err := d.reg.CreateNamespace(coNS, &cluster.NamespaceMetaInfo{PartitionNum: 1, Replica: d.R}); err != nil {
+	if err := d.reg.CreateNamespace(coNS, &cluster.NamespaceMetaInfo{PartitionNum: d.P, Replica: d.R}); err != nil {
 		return err
 	}
-	pri := cluster.PartitionReplicaInfo{RaftIDs: map[string]uint64{}, Removings: map[string]cluster.RemovingInfo{}}
-	for i := 1; i <= d.K; i++ {
-		id := d.nodes[i-1].info.ID
-		pri.RaftNodes = append(pri.RaftNodes, id)
-		pri.MaxRaftID++
-		pri.RaftIDs[id] = uint64(pri.MaxRaftID)
-		d.st.members[i] = uint64(pri.MaxRaftID)
+	layout := make([][]string, d.P)
+	if d.P == 1 {
+		for i := 1; i <= d.K; i++ {
+			layout[0] = append(layout[0], d.nodes[i-1].info.ID)
+		}
+	} else {
+		first := make(map[string]cluster.NodeInfo)
+		for _, n := range d.nodes[:d.N-1] {
+			first[n.info.ID] = n.info
+		}
+		l, cerr := pdnode_coord.VerifRebalance(coNS, d.P, d.R, nil, first, "v2")
+		if cerr != nil {
+			return fmt.Errorf("initial layout: %s", cerr.ErrMsg)
+		}
+		for p := range l {
+			layout[p] = l[p][:d.K]
+		}
 	}
-	pri.MaxRaftID = int64(d.R) // K < R: a partition that lost replicas earlier, their ids are used up
-	if err := d.reg.UpdateNamespacePartReplicaInfo(coNS, 0, &pri, 0); err != nil {
-		return err
+	for p := 0; p < d.P; p++ {
+		pri := cluster.PartitionReplicaInfo{RaftIDs: map[string]uint64{}, Removings: map[string]cluster.RemovingInfo{}}
+		for _, id := range layout[p] {
+			pri.RaftNodes = append(pri.RaftNodes, id)
+			pri.MaxRaftID++
+			pri.RaftIDs[id] = uint64(pri.MaxRaftID)
+			d.st.members[p][d.num(id)] = uint64(pri.MaxRaftID)
+		}
+		pri.MaxRaftID = int64(d.R) // K < R: a partition that lost replicas earlier, their ids are used up
+		if err := d.reg.UpdateNamespacePartReplicaInfo(coNS, p, &pri, 0); err != nil {
+			return err
+		}
+		d.emit(trace.M{"ev": "init", "p": p, "rec": d.rec(&pri, int64(cluster.VerifReplicaEpoch(&pri)))})
 	}
-	d.tw.Emit(trace.M{"ev": "init", "rec": d.rec(&pri, int64(cluster.VerifReplicaEpoch(&pri)))})
 	d.reg.OnUpdate = func(u cluster.VerifUpdate) {
 		gen := u.NewGen
 		if !u.OK {
 			gen = u.OldGen
 		}
-		d.tw.Emit(trace.M{"ev": "update", "ok": u.OK, "oldgen": int64(u.OldGen), "rec": d.rec(&u.Info, int64(gen))})
+		d.twmu.Lock()
+		d.tw.Emit(trace.M{"ev": "update", "p": u.Partition, "ok": u.OK, "oldgen": int64(u.OldGen), "rec": d.rec(&u.Info, int64(gen))})
 		if u.OK {
 			d.stats["writes_ok"]++
 		} else {
 			d.stats["writes_cas_failed"]++
 		}
+		d.twmu.Unlock()
 	}
-	d.pd = pdnode_coord.VerifNewCoordinator(d.reg, "v2", true)
-	d.epoch = pdnode_coord.VerifSetNodes(d.pd, d.aliveMap())
-	d.snap, _ = d.reg.GetNamespacePartInfo(coNS, 0)
-	d.wait = map[string]map[int]time.Time{}
+	d.pds, d.epochs, d.snaps, d.waits = nil, nil, nil, nil
+	for w := 0; w < d.W; w++ {
+		pd := pdnode_coord.VerifNewCoordinator(d.reg, "v2", true)
+		d.pds = append(d.pds, pd)
+		d.epochs = append(d.epochs, pdnode_coord.VerifSetNodes(pd, d.aliveMap()))
+		var sn []*cluster.PartitionMetaInfo
+		for p := 0; p < d.P; p++ {
+			x, _ := d.reg.GetNamespacePartInfo(coNS, p)
+			sn = append(sn, x)
+		}
+		d.snaps = append(d.snaps, sn)
+		d.waits = append(d.waits, map[string]map[int]time.Time{})
+	}
+	d.nbal = 0
 	return nil
 }
 
-func (d *coDrv) current() *cluster.PartitionMetaInfo {
-	p, err := d.reg.GetNamespacePartInfo(coNS, 0)
+func (d *coDrv) setNodesAll() {
+	for w, pd := range d.pds {
+		d.epochs[w] = pdnode_coord.VerifSetNodes(pd, d.aliveMap())
+	}
+}
+
+// placeIn logs the previous layout the coordinator hands to the placement function.
+func (d *coDrv) placeIn(w int) {
+	l, cerr := pdnode_coord.VerifCurrentPartitionNodes(d.pds[w], coNS)
+	if cerr != nil {
+		return
+	}
+	old := make([][]int, d.P)
+	for p := 0; p < d.P; p++ {
+		old[p] = []int{}
+		if p < len(l) {
+			for _, id := range l[p] {
+				old[p] = append(old[p], d.num(id))
+			}
+		}
+	}
+	d.emit(trace.M{"ev": "placein", "old": old})
+}
+
+// follow lets the raft group of every partition follow the REAL metadata (joins of current
+// replicas on live nodes, leaves of marked / dropped ones); used while a balance round runs.
+func (d *coDrv) follow() {
+	for p := 0; p < d.P; p++ {
+		cur := d.current(p)
+		isr := map[int]uint64{}
+		for _, id := range cur.GetISR() {
+			isr[d.num(id)] = cur.RaftIDs[id]
+		}
+		changed := false
+		d.st.mu.Lock()
+		for n, rid := range isr {
+			if d.st.members[p][n] != rid && d.alive[n] {
+				d.st.members[p][n] = rid
+				changed = true
+			}
+		}
+		for n, rid := range d.st.members[p] {
+			if r2, ok := isr[n]; !ok || r2 != rid {
+				delete(d.st.members[p], n)
+				changed = true
+			}
+		}
+		d.st.mu.Unlock()
+		if changed {
+			d.logMembers(p)
+			d.stats["env_raft"]++
+		}
+	}
+}
+
+func (d *coDrv) current(p int) *cluster.PartitionMetaInfo {
+	x, err := d.reg.GetNamespacePartInfo(coNS, p)
 	if err != nil {
 		panic(err)
 	}
-	return p
+	return x
 }
 
-func (d *coDrv) copyOf(src string) *cluster.PartitionMetaInfo {
+func (d *coDrv) copyOf(w, p int, src string) *cluster.PartitionMetaInfo {
 	if src == "snap" {
-		return d.snap // the coordinator's own earlier copy (the code updates it after a successful write)
+		return d.snaps[w][p] // the coordinator's own earlier copy (the code updates it after a successful write)
 	}
-	return d.current()
+	return d.current(p)
 }
 
 func coErr(e *cluster.CoordErr) string {
@@ -246,20 +357,20 @@ func coErr(e *cluster.CoordErr) string {
 }
 
 // call runs one coordinator entry point under recover and logs it.
-func (d *coDrv) call(op, src string, n int, f func() string) {
+func (d *coDrv) call(op, src string, w, p, n int, f func() string) {
 	before := d.stats["writes_ok"]
 	var err string
 	func() {
 		defer func() {
 			if e := recover(); e != nil {
-				d.tw.Emit(trace.M{"ev": "panic", "op": op, "msg": fmt.Sprint(e)})
+				d.emit(trace.M{"ev": "panic", "op": op, "msg": fmt.Sprint(e)})
 				d.stats["panics"]++
 				err = "panic"
 			}
 		}()
 		err = f()
 	}()
-	d.tw.Emit(trace.M{"ev": "call", "op": op, "src": src, "n": n, "err": err})
+	d.emit(trace.M{"ev": "call", "op": op, "src": src, "w": w + 1, "p": p, "n": n, "err": err})
 	d.stats["call_"+op]++
 	if d.stats["writes_ok"] > before {
 		d.stats["effective_"+op]++
@@ -282,6 +393,11 @@ func (d *coDrv) step(name string, args []string) {
 		}
 		return "cur"
 	}
+	// writer / partition arguments (1-based writer in the labels)
+	wp := func(i int) (int, int, bool) {
+		w, p := argN(i)-1, argN(i+1)
+		return w, p, w >= 0 && w < d.W && p >= 0 && p < d.P
+	}
 	switch name {
 	case "NodeDown", "NodeUp":
 		n := argN(0)
@@ -299,11 +415,11 @@ func (d *coDrv) step(name string, args []string) {
 			delete(d.st.unsynced, n)
 		}
 		d.st.mu.Unlock()
-		d.epoch = pdnode_coord.VerifSetNodes(d.pd, d.aliveMap())
+		d.setNodesAll()
 		if up {
-			d.tw.Emit(trace.M{"ev": "up", "n": n})
+			d.emit(trace.M{"ev": "up", "n": n})
 		} else {
-			d.tw.Emit(trace.M{"ev": "down", "n": n})
+			d.emit(trace.M{"ev": "down", "n": n})
 		}
 		d.stats["env_updown"]++
 	case "SyncLost", "SyncBack":
@@ -319,30 +435,35 @@ func (d *coDrv) step(name string, args []string) {
 		}
 		d.st.mu.Unlock()
 		if name == "SyncLost" {
-			d.tw.Emit(trace.M{"ev": "unsync", "n": n})
+			d.emit(trace.M{"ev": "unsync", "n": n})
 		} else {
-			d.tw.Emit(trace.M{"ev": "sync", "n": n})
+			d.emit(trace.M{"ev": "sync", "n": n})
 		}
 		d.stats["env_sync"]++
 	case "RaftJoin", "RaftLeave":
 		// the raft group follows the REAL metadata: the named node if the change applies to
 		// it, otherwise the smallest node it applies to (the model may have diverged)
-		cur := d.current()
+		p := argN(0)
+		if p < 0 || p >= d.P {
+			return
+		}
+		cur := d.current(p)
 		isr := map[int]uint64{}
 		for _, id := range coISR(cur) {
 			isr[d.num(id)] = cur.RaftIDs[id]
 		}
-		want := argN(0)
+		want := argN(1)
 		cands := []int{}
 		d.st.mu.Lock()
+		mem := d.st.members[p]
 		if name == "RaftJoin" {
 			for n, rid := range isr {
-				if d.st.members[n] != rid {
+				if mem[n] != rid {
 					cands = append(cands, n)
 				}
 			}
 		} else {
-			for n, rid := range d.st.members {
+			for n, rid := range mem {
 				if r2, ok := isr[n]; !ok || r2 != rid {
 					cands = append(cands, n)
 				}
@@ -360,71 +481,151 @@ func (d *coDrv) step(name string, args []string) {
 		}
 		if pick != 0 {
 			if name == "RaftJoin" {
-				d.st.members[pick] = isr[pick]
+				mem[pick] = isr[pick]
 			} else {
-				delete(d.st.members, pick)
+				delete(mem, pick)
 			}
 		}
 		d.st.mu.Unlock()
 		if pick != 0 {
-			d.logMembers()
+			d.logMembers(p)
 			d.stats["env_raft"]++
 		}
 	case "Snapshot":
-		d.snap = d.current()
-		d.tw.Emit(trace.M{"ev": "call", "op": "snapshot", "src": "cur", "n": 0, "err": ""})
-	case "Migrate":
-		src := argS(0)
-		p := d.copyOf(src)
-		d.call("migrate", src, 0, func() string {
-			return coErr(pdnode_coord.VerifMigrate(d.pd, p, d.aliveMap(), d.epoch))
-		})
-	case "PlanAdd":
-		n, src := argN(0), argS(1)
-		if n < 1 || n > d.N {
+		w, p, ok := wp(0)
+		if !ok {
 			return
 		}
-		p := d.copyOf(src)
-		d.call("add", src, n, func() string {
+		d.snaps[w][p] = d.current(p)
+		d.emit(trace.M{"ev": "call", "op": "snapshot", "src": "cur", "w": w + 1, "p": p, "n": 0, "err": ""})
+	case "ChangeFactor":
+		r := argN(0)
+		var err error
+		d.call("changefactor", "cur", 0, 0, r, func() string {
+			err = d.pds[0].ChangeNamespaceMetaParam(coNS, r, "", 0)
+			for _, pd := range d.pds {
+				pdnode_coord.VerifDrainCheckTrigger(pd)
+			}
+			if err != nil {
+				return err.Error()
+			}
+			return ""
+		})
+		if m, e2 := d.reg.GetNamespaceMetaInfo(coNS); e2 == nil && err == nil && m.Replica == r {
+			d.emit(trace.M{"ev": "setr", "r": r})
+			d.stats["factor_changes"]++
+			if !d.staleFactor {
+				// avoid (known finding stale-factor-copy): the coordinators re-read their copies
+				// after the factor changed, as every check round does
+				for w := range d.snaps {
+					for p := range d.snaps[w] {
+						d.snaps[w][p] = d.current(p)
+					}
+				}
+			}
+		}
+	case "Migrate":
+		w, p, ok := wp(0)
+		if !ok {
+			return
+		}
+		src := argS(2)
+		c := d.copyOf(w, p, src)
+		d.placeIn(w)
+		d.call("migrate", src, w, p, 0, func() string {
+			return coErr(pdnode_coord.VerifMigrate(d.pds[w], c, d.aliveMap(), d.epochs[w]))
+		})
+	case "PlanAdd":
+		w, p, ok := wp(0)
+		n, src := argN(2), argS(3)
+		if !ok || n < 1 || n > d.N {
+			return
+		}
+		c := d.copyOf(w, p, src)
+		d.call("add", src, w, p, n, func() string {
 			// the caller's context (addNodeToNamespaceAndWaitReady): a live node, a group that
 			// is not yet surplus and reports full readiness
 			if !d.alive[n] {
 				return "skipped: node not alive"
 			}
-			if len(coISR(p)) > p.Replica {
+			if len(coISR(c)) > c.Replica {
 				return "skipped: already surplus"
 			}
-			if ok, err := pdnode_coord.IsAllISRFullReady(p); err != nil || !ok {
+			if ok, err := pdnode_coord.IsAllISRFullReady(c); err != nil || !ok {
 				return "skipped: isr not full ready"
 			}
-			return coErr(pdnode_coord.VerifAddTo(d.pd, p, d.nodes[n-1].info.ID))
+			return coErr(pdnode_coord.VerifAddTo(d.pds[w], c, d.nodes[n-1].info.ID))
 		})
 	case "PlanRemove":
-		n, src := argN(0), argS(1)
-		if n < 1 || n > d.N {
+		w, p, ok := wp(0)
+		n, src := argN(2), argS(3)
+		if !ok || n < 1 || n > d.N {
 			return
 		}
-		p := d.copyOf(src)
-		d.call("remove", src, n, func() string {
+		c := d.copyOf(w, p, src)
+		d.call("remove", src, w, p, n, func() string {
 			// the callers' context (doCheckNamespaces, rebalanceNamespace, processRemovingNodes)
-			if ok, err := pdnode_coord.IsAllISRFullReady(p); err != nil || !ok {
+			if ok, err := pdnode_coord.IsAllISRFullReady(c); err != nil || !ok {
 				return "skipped: isr not full ready"
 			}
-			return coErr(pdnode_coord.VerifRemoveFrom(d.pd, p, d.nodes[n-1].info.ID))
+			return coErr(pdnode_coord.VerifRemoveFrom(d.pds[w], c, d.nodes[n-1].info.ID))
 		})
 	case "Finish":
-		src := argS(0)
-		p := d.copyOf(src)
-		d.call("finish", src, 0, func() string {
-			pdnode_coord.VerifFinishRemovings(d.pd, p)
+		w, p, ok := wp(0)
+		if !ok {
+			return
+		}
+		src := argS(2)
+		c := d.copyOf(w, p, src)
+		d.call("finish", src, w, p, 0, func() string {
+			pdnode_coord.VerifFinishRemovings(d.pds[w], c)
 			return ""
 		})
 	case "CheckRound":
-		d.call("check", "cur", 0, func() string {
-			pdnode_coord.VerifCheckNamespaces(d.pd, d.wait, true)
-			pdnode_coord.VerifCheckNamespaces(d.pd, d.wait, true)
+		w := argN(0) - 1
+		if w < 0 || w >= d.W {
+			return
+		}
+		d.placeIn(w)
+		d.emit(trace.M{"ev": "begin", "op": "check"})
+		d.call("check", "cur", w, 0, 0, func() string {
+			pdnode_coord.VerifCheckNamespaces(d.pds[w], d.waits[w], true)
+			pdnode_coord.VerifCheckNamespaces(d.pds[w], d.waits[w], true)
 			return ""
 		})
+		d.emit(trace.M{"ev": "end", "op": "check"})
+	case "BalanceRound":
+		w := argN(0) - 1
+		if w < 0 || w >= d.W || !d.realBalance || d.nbal >= 2 {
+			return
+		}
+		d.nbal++
+		// the real rebalanceNamespace sleeps 5 s after adding a replica and then waits for it to
+		// be ready: meanwhile the raft groups follow the metadata (only "more ready" changes)
+		stop := make(chan struct{})
+		var wg sync.WaitGroup
+		wg.Add(1)
+		go func() {
+			defer wg.Done()
+			for {
+				select {
+				case <-stop:
+					return
+				case <-time.After(300 * time.Millisecond):
+					d.follow()
+				}
+			}
+		}()
+		d.placeIn(w)
+		d.emit(trace.M{"ev": "begin", "op": "balance"})
+		d.call("balance", "cur", w, 0, 0, func() string {
+			pdnode_coord.VerifSetClusterStable(d.pds[w], true)
+			moved, all := pdnode_coord.VerifRebalanceRound(d.pds[w])
+			return fmt.Sprintf("moved=%v balanced=%v", moved, all)
+		})
+		close(stop)
+		wg.Wait()
+		d.emit(trace.M{"ev": "end", "op": "balance"})
 	}
 }
 
@@ -454,6 +655,10 @@ func coordsim(args []string) error {
 	R := fs.Int("R", 3, "replication factor")
 	N := fs.Int("N", 4, "data nodes")
 	K := fs.Int("K", 0, "replicas of the initial layout (0 = R); must be a strict majority of R")
+	Pn := fs.Int("P", 1, "partitions of the namespace")
+	Wn := fs.Int("W", 1, "coordinators (2 = PD leader fail-over with a stale old leader)")
+	bal := fs.Bool("balance", false, "run the real rebalanceNamespace for BalanceRound labels (5 s per move; at most 2 per behaviour)")
+	stalef := fs.Bool("stalefactor", false, "keep the coordinators' copies across a factor change (trigger of finding stale-factor-copy)")
 	sim := fs.String("sim", "", "directory with TLC -simulate files of MC_ZCoord (every file = one behaviour)")
 	script := fs.String("script", "", "a single script: labels separated by ';' e.g. 'NodeDown(2);Migrate(\"cur\")'")
 	limit := fs.Int("limit", 0, "replay at most this many behaviours (0 = all)")
@@ -465,6 +670,7 @@ func coordsim(args []string) error {
 	d := &coDrv{st: &coStub{}, byID: map[string]int{}, rng: rand.New(rand.NewSource(*seed)), R: *R, N: *N,
 		stats: map[string]int{}}
 	d.K = *K
+	d.P, d.W, d.realBalance, d.staleFactor = *Pn, *Wn, *bal, *stalef
 	if d.K <= 0 || d.K > d.R {
 		d.K = d.R
 	}
@@ -513,7 +719,7 @@ func coordsim(args []string) error {
 	}
 	steps := 0
 	for i, b := range behaviours {
-		if err := d.begin(fmt.Sprintf("%s R=%d N=%d", names[i], *R, *N)); err != nil {
+		if err := d.begin(fmt.Sprintf("%s R=%d N=%d P=%d W=%d", names[i], *R, *N, *Pn, *Wn)); err != nil {
 			return err
 		}
 		for _, l := range b {
@@ -530,7 +736,7 @@ func coordsim(args []string) error {
 	d.st.mu.Lock()
 	nreq := d.st.nreq
 	d.st.mu.Unlock()
-	summary(map[string]interface{}{"driver": "coordsim", "seed": *seed, "R": *R, "N": *N, "K": d.K, "behaviours": len(behaviours),
+	summary(map[string]interface{}{"driver": "coordsim", "seed": *seed, "R": *R, "N": *N, "K": d.K, "P": d.P, "W": d.W, "behaviours": len(behaviours),
 		"labels": steps, "events": tw.N, "http_requests_answered": nreq, "stats": d.stats})
 	return nil
 }
